@@ -29,7 +29,7 @@ import (
 type Item struct {
 	Kind  string `json:"k"`           // w sw t tp mh mm ml sh sm sl hk hx (hook on the event of a dependency)
 	Delay int    `json:"d"`           // ms between observing the cancellation and returning
-	Ret   string `json:"r,omitempty"` // "" (nil) | err | panic | ctxerr | restart (service worker: one ErrRestartNow first)
+	Ret   string `json:"r,omitempty"` // "" (nil) | err | panic | ctxerr | cancelwrap (wrapped context.Canceled) | restartnow (ErrRestartNow) | restartwrap (wrapped ErrRestartNow) | restart (service worker: one ErrRestartNow before anything else)
 	At    string `json:"a,omitempty"` // "" = started by the work op and awaited | start = from inside the start routine | race = not awaited
 	Cycle int    `json:"c,omitempty"` // online phase in which it is started
 	Self  bool   `json:"s,omitempty"` // finishes on its own Delay ms after it began (does not wait for the cancellation)
@@ -293,6 +293,7 @@ type itemState struct {
 	exited   chan struct{}
 	once     sync.Once
 	exitOnce sync.Once
+	runs     int32
 	ctx      atomic.Value // context.Context handed to the item
 }
 
@@ -319,13 +320,24 @@ func body(i, j int, ctx context.Context) error {
 	st.ctx.Store(&ctx)
 	st.once.Do(func() { close(st.entered) })
 	defer st.exitOnce.Do(func() { close(st.exited) })
+	runs := atomic.AddInt32(&st.runs, 1)
 	if !it.Self {
 		<-ctx.Done()
 	}
-	if it.Delay > 0 {
-		time.Sleep(time.Duration(it.Delay) * time.Millisecond)
+	delay := it.Delay
+	if runs > 1 && delay < 3 {
+		delay = 3 // an item whose function is run again (service worker restart) must not spin without bound
+	}
+	if delay > 0 {
+		time.Sleep(time.Duration(delay) * time.Millisecond)
 	}
 	hev("h workExit %d i%d status=%d", i, j, mods[i].Status())
+	if it.Kind == "sw" {
+		mev(i, "swReturn", fmt.Sprintf("i%d", j))
+	}
+	if runs > 4000 {
+		return nil
+	}
 	switch it.Ret {
 	case "err":
 		return errors.New("item failed")
@@ -333,6 +345,12 @@ func body(i, j int, ctx context.Context) error {
 		panic("item panic")
 	case "ctxerr":
 		return ctx.Err()
+	case "cancelwrap":
+		return fmt.Errorf("interrupted: %w", context.Canceled)
+	case "restartnow":
+		return modules.ErrRestartNow
+	case "restartwrap":
+		return fmt.Errorf("connection lost: %w", modules.ErrRestartNow)
 	}
 	return nil
 }
@@ -351,6 +369,7 @@ func startItem(i, j int) {
 			if it.Ret == "restart" && atomic.CompareAndSwapInt32(&first, 1, 0) {
 				mev(i, "workEnter", fmt.Sprintf("i%d", j), ctx)
 				hev("h workExit %d i%d status=%d restart", i, j, mods[i].Status())
+				mev(i, "swReturn", fmt.Sprintf("i%d", j))
 				return modules.ErrRestartNow
 			}
 			return body(i, j, ctx)
